@@ -2,8 +2,11 @@
 
 Correspondence: the real `TokenBucketPolicy` / `LeakyBucketPolicy` / `SlidingWindowPolicy` /
 `FixedWindowPolicy` / `AdaptivePolicy` objects from /repo are driven directly with generated
-`Instant`s (families `policy-exact`, `policy-tol`), and `RateLimitedEntity` / `NullRateLimiter`
-run inside a real `Simulation` (family `entity`).  The same inputs go to the exact-integer Lean model
+`Instant`s (families `policy-exact`, `policy-tol`), and `RateLimitedEntity` / `NullRateLimiter` /
+`Inductor` run inside a real `Simulation` (family `entity`; the Inductor's float EWMA gate is an
+oracle, its forward / queue / drop / poll control flow is the model's `Ent`), and 1–3
+`DistributedRateLimiter` instances over one `KVStore` (family `drl`; the model replays the
+generator segments in the order the engine ran them).  The same inputs go to the exact-integer Lean model
 (`HappyModel/C10`); transcripts are diffed; the Lean Spec predicates (`HappyModel/C10/Spec.lean`)
 judge the implementation's own transcript.
 
@@ -29,6 +32,9 @@ from hv import core  # puts HV_REPO (default /repo) on sys.path
 # imported here so that forked pool workers inherit the loaded package
 import happysimulator.components.rate_limiter.policy  # noqa: E402,F401
 import happysimulator.components.rate_limiter.rate_limited_entity  # noqa: E402,F401
+import happysimulator.components.rate_limiter.inductor  # noqa: E402,F401
+import happysimulator.components.rate_limiter.distributed  # noqa: E402,F401
+import happysimulator.components.datastore  # noqa: E402,F401
 import happysimulator.core.simulation  # noqa: E402,F401
 
 G = 1_953_125  # 2^-9 s in ns: the float-exact time grid
@@ -103,7 +109,34 @@ def cfg_tokens(spec):
                 int(F(spec["initial"]) * D), int(tok0)]
     if k == "null":
         return ["null"]
+    if k == "ind":
+        return ["ind"]          # the oracle (gate decisions, poll waits) is appended by model_block
     raise ValueError(k)
+
+
+def inductor_oracle(lines):
+    """The Inductor's EWMA gate as an oracle, read off a transcript: one decision per request and per poll
+    that found the queue non-empty (did the handler forward?), one wait per scheduled poll event."""
+    ds, ws, depth = [], [], 0
+    for line in lines:
+        t = line.split()
+        if t[0] == "req":
+            rid, fid = t[1], t[3]
+            ds.append("1" if fid != "-" else "0")
+            depth += int(t[4])
+            if fid not in ("-", rid):
+                depth -= 1
+            if t[6] != "-":
+                ws.append(int(t[6]) - int(t[2]))
+        elif t[0] == "poll":
+            fid = t[2]
+            if depth > 0:
+                ds.append("1" if fid != "-" else "0")
+                if fid != "-":
+                    depth -= 1
+            if t[3] != "-":
+                ws.append(int(t[3]) - int(t[1]))
+    return ["d" + "".join(ds)] + [str(max(0, w)) for w in ws]
 
 
 class C10(core.Property):
@@ -123,7 +156,13 @@ class C10(core.Property):
             "parameters — window sizes / rates written as decimals with 1–4 fractional digits, 60 % of them chosen so that truncating and "
             "rounding x·1e9 differ by 1 ns (1.001 s, 1.017 s, 33.3/s) — and 2–6 rounds of: take everything granted at one instant, then arrive "
             "exactly at t + time_until_available(t) again and again (drain) or ask and try at once; family entity (≈1/6): "
-            "RateLimitedEntity or NullRateLimiter inside a real Simulation, ≤25 requests, queue capacity 0–3 or large. "
+            "RateLimitedEntity or NullRateLimiter inside a real Simulation, ≤25 requests, queue capacity 0–3 or large; one third of "
+            "that slot is the Inductor (bursts at one instant / 1 ns apart, arrivals around the smoothed interval, sub-nanosecond "
+            "smoothed intervals, tau 1 ms–10 s) and one sixth 1–3 DistributedRateLimiter instances over one KVStore (grid windows "
+            "and latencies, arrivals on window boundaries, half sequential, half overlapping); 1/12 of all cases are adaptive "
+            "feedback scripts: idle or not, 0–3 record_failure/record_success (before the first call, at the instant of the last "
+            "call, later), then at the same instant / one step / one refill / one window later a burst one larger than the bucket "
+            "of the rate in force before the feedback (exact grid 70 %, decimal parameters 30 %). "
             "A policy case is non-trivial when it has at least one granted and one refused acquire; an entity case "
             "when at least one request was queued or dropped; distinct = distinct case content")
     trusted_base = [
@@ -132,6 +171,10 @@ class C10(core.Property):
         "stats/queue_depth)",
         "IEEE-754 rounding inside the policies is validated by the grid/tolerance scheme, not proved",
         "entity cases take the delivery schedule (which event reached the limiter when) from the real engine",
+        "Inductor cases: the tap around Inductor.handle_event; the gate oracle (hv/props/c10.py:inductor_oracle) is derived "
+        "from the transcript (forward emitted or not, poll time minus now)",
+        "DistributedRateLimiter cases: a generator wrapper around handle_event logs every segment (arrival, each resume) "
+        "with the public stats delta; the segment order comes from the real engine; KVStore.keys()/get_sync for the final store",
     ]
     assumptions = [
         "operation times never decrease (the engine guarantees it; C01)",
@@ -140,10 +183,18 @@ class C10(core.Property):
         "request ids are distinct",
         "policy-tol: decisions within 1e-6 token of the threshold and waits within 1 ns are not compared "
         "(counted in float_boundary_unjudged); the bounds are judged with 1e-6 token slack",
-        "DistributedRateLimiter and Inductor are not modelled (see final report)",
+        "Inductor: the EWMA gate (_can_forward, smoothed interval; floats through math.exp) is an oracle read off the "
+        "run — its decisions and poll waits are not predicted, the control flow around it (forward / queue / drop / "
+        "poll, 1 ns guard) is modelled and judged",
+        "DistributedRateLimiter: windows, store latencies and arrival times on the 2^-9 s grid (window id = floor of "
+        "float seconds elsewhere); the per-window limit is judged on runs whose requests do not overlap (the "
+        "read-modify-write on the shared counter loses updates when they do — by design, says the code)",
     ]
     partial_theorems = {
-        "HappyModel.C10.adaptive_credit_bound": "the sharp adaptive bound is stated with the credit the code actually grants "
+        "HappyModel.C10.adaptive_credit_bound": "the property's adaptive clause (bucket bound of the CURRENT rate, epoch by epoch, "
+        "all feedback sequences, a burst after a decrease judged against the decreased capacity) is proved in full: "
+        "adaptive_epoch_bound, adaptive_bucket_within_rate, adaptive_burst_after_decrease.  What stays partial is only the "
+        "cross-epoch form: it is stated with the credit the code actually grants "
         "(AD.credit = sum over try_acquire / time_until_available calls of rate-at-the-call x time-since-the-previous-call): "
         "admissions*one + tokens_left <= tokens_at_start + credit, from any state, for any operation list; between two rate "
         "changes it is the bucket bound of the current rate (adaptive_current_rate_bound) and it implies the pmax bound "
@@ -167,11 +218,17 @@ class C10(core.Property):
     def generate(self, rng: random.Random, i: int, tier: str) -> dict:
         m = i % 6
         if m == 5:
+            if (i // 6) % 3 == 0:
+                return self.gen_inductor(rng, tier)
+            if (i // 6) % 3 == 1 and (i // 18) % 2 == 0:
+                return self.gen_drl(rng, tier)
             return self.gen_entity(rng, tier)
         if m == 4:
             return self.gen_policy_tol(rng, tier)
         if m == 3 and (i // 6) % 2 == 0:
             return self.gen_policy_follow(rng, tier)
+        if m == 2 and (i // 6) % 2 == 0:
+            return self.gen_adaptive_feedback(rng, tier)
         return self.gen_policy_exact(rng, tier)
 
     # --- exact grid
@@ -365,6 +422,67 @@ class C10(core.Property):
             t += rng.choice([0, 0, 1, unit // 3, unit - 1, unit, unit + 1])
         return {"family": "policy-tol", "mode": "tol", "style": "follow", "policy": spec, "ops": ops[:120]}
 
+    def gen_adaptive_feedback(self, rng, tier):
+        """Feedback sequences for the adaptive policy's own clause ("the bucket bound of its current rate, for
+        all success/failure feedback sequences").  Rounds of: let the bucket fill (idle gap) or not; zero to
+        three record_failure / record_success calls — before the policy was ever asked (the refill clock not
+        started), at the instant of the last call, or later; then, at the same instant, one grid step later, a
+        refill interval later or a window later, a burst of try_acquire one larger than the bucket of the rate
+        in force *before* the feedback, at one instant or split over two adjacent ones.  Small buckets
+        (rate x window <= 32 tokens) keep the bursts short.  70 % on the float-exact grid (rates 1..16 with
+        factor 1/2, 1/4, 3/4), 30 % with decimal parameters and nanosecond times (tol mode)."""
+        exact = rng.random() < 0.7
+        if exact:
+            window = rng.choice([1.0, 1.0, 0.5, 2.0])
+            mn = rng.choice([1.0, 2.0])
+            if mn * window < 1:
+                mn = 1.0 / window
+            mx = rng.choice([4.0, 8.0, 16.0])
+            spec = {"kind": "ad", "initial": rng.choice([mx, mx, mx / 2, mn]), "min": mn, "max": mx,
+                    "step": rng.choice([1.0, 2.0, 8.0]), "factor": rng.choice([0.5, 0.5, 0.25, 0.75]), "window": window}
+            step = G
+            gap = lambda r: max(1, round(512 / r))           # one token's refill, in grid steps
+            wsteps = round(window * 512)
+        else:
+            window = rng.choice([1.0, 0.5, 2.0, 0.1])
+            mn = max(rng.choice([1.0, 2.5]), 1.0 / window + 0.001)
+            mx = max(mn, rng.choice([10.0, 20.0, 33.3, 12.5]))
+            if mx * window > 40:
+                mx = 40.0 / window
+            spec = {"kind": "ad", "initial": rng.choice([mx, mx, mn, (mn + mx) / 2]), "min": mn, "max": mx,
+                    "step": rng.choice([1.0, 0.1, 2.5, 10.0]), "factor": rng.choice([0.5, 0.9, 0.3, 0.8]), "window": window}
+            step = 1
+            gap = lambda r: max(1, int(NS / r))
+            wsteps = int(window * NS)
+        rate = spec["initial"]
+        t = rng.choice([0, 0, 1, wsteps])
+        ops = []
+        if rng.random() < 0.5:
+            ops.append([rng.choice(["acq", "acq", "tua"] if not exact else ["acq"]), t * step])  # starts the refill clock
+        for _ in range(rng.choice([1, 2, 3, 5])):
+            if rng.random() < 0.6:
+                t += wsteps * rng.choice([1, 1, 2]) + rng.choice([0, 0, 1])    # idle: the bucket fills up
+                if rng.random() < 0.6:
+                    ops.append(["acq", t * step])
+            old = rate
+            t += rng.choice([0, 0, 0, 1, gap(rate)])
+            for _ in range(rng.choice([0, 1, 1, 1, 2, 3])):
+                if rng.random() < 0.7:
+                    rate = max(spec["min"], rate * spec["factor"])
+                    ops.append(["fail", t * step])
+                else:
+                    rate = min(spec["max"], rate + spec["step"])
+                    ops.append(["succ", t * step])
+            t += rng.choice([0, 0, 0, 1, 1, gap(rate), wsteps, wsteps + 1])
+            n = min(int(max(old, rate) * window) + 1, 40)
+            k = rng.choice([n, n, n, max(1, n // 2)])
+            for j in range(n):
+                ops.append(["acq", (t + (1 if j >= k else 0)) * step])
+            if n > k:
+                t += 1
+        return {"family": "policy-exact" if exact else "policy-tol", "mode": "exact" if exact else "tol",
+                "style": "feedback", "policy": spec, "ops": ops[:200]}
+
     def gen_entity(self, rng, tier):
         if rng.random() < 0.06:
             spec = {"kind": "null"}
@@ -391,11 +509,154 @@ class C10(core.Property):
         return {"family": "entity", "policy": spec, "qcap": rng.choice([0, 1, 1, 2, 3, 1000]),
                 "reqs": reqs, "end": end, "inject": rng.choice(["pre", "handler"])}
 
+    def gen_inductor(self, rng, tier):
+        """Inductor inside a real Simulation: bursts (same instant, 1 ns apart), arrivals around the smoothed
+        interval, long gaps; time constants from 1 ms to 10 s; queue capacity 0..3 or large.  Two arrivals at
+        one instant followed by one a nanosecond later make the smoothed interval positive but below 1 ns
+        (the poll wait truncates to zero; the 1 ns guard must keep the drain moving)."""
+        n = rng.choice([2, 3, 4, 5, 8, 12, 25])
+        base = rng.choice([NS, NS // 10, NS // 1000, 1000, 3 * NS])
+        t = rng.choice([0, 0, 1, NS])
+        reqs = []
+        if rng.random() < 0.25:
+            reqs += [t, t, t + 1, t + 1, t + 1][: rng.choice([3, 4, 5])]    # sub-nanosecond smoothed interval
+            t += 1
+        while len(reqs) < n:
+            r = rng.random()
+            if r < 0.25:
+                dt = 0
+            elif r < 0.4:
+                dt = rng.choice([1, 2])
+            elif r < 0.75:
+                dt = max(0, base + rng.choice([-1, 0, 0, 1, base // 10, -(base // 10)]))
+            elif r < 0.9:
+                dt = base // rng.choice([2, 3, 10])
+            else:
+                dt = base * rng.choice([3, 10])
+            t += dt
+            reqs.append(t)
+        end = t + rng.choice([0, base, 3 * base, 40 * base, 40 * base, 400 * base])
+        return {"family": "entity", "policy": {"kind": "ind", "tau": rng.choice([0.001, 0.1, 1.0, 1.0, 10.0])},
+                "qcap": rng.choice([0, 1, 1, 2, 3, 1000]), "reqs": reqs, "end": end,
+                "inject": rng.choice(["pre", "handler"])}
+
+    def gen_drl(self, rng, tier):
+        """1–3 DistributedRateLimiter instances over one KVStore inside a real Simulation.  Windows, store
+        latencies and arrival times on the 2^-9 s grid (the code floor-divides float seconds for the window
+        id; off the grid that is the float-floor question of fixes/C10-fixed-window-float-floor, not asked
+        here).  Half of the cases keep requests apart by more than a read + write round trip (sequential:
+        the per-window limit is judged), the others overlap them (lost updates are by design; exactly-once,
+        order and counters are judged)."""
+        W = rng.choice([8, 64, 100, 512])                # window, grid steps
+        N = rng.choice([1, 1, 2, 3, 5])
+        k = rng.choice([1, 1, 2, 3])
+        rl, wl = rng.choice([0, 1, 1, 2, 5]), rng.choice([0, 1, 1, 3, 5])
+        sequential = rng.random() < 0.5
+        n = rng.choice([2, 3, 5, 8, 12, 20])
+        t = rng.choice([0, 0, 1, W, W - 1])
+        reqs = []
+        for _ in range(n):
+            r = rng.random()
+            if r < 0.3:
+                dt = 0
+            elif r < 0.5:
+                dt = rng.choice([1, 2])
+            elif r < 0.8:
+                dt = max(0, (t // W + 1) * W - t + rng.choice([-1, 0, 0, 1]))     # next window boundary
+            else:
+                dt = rng.choice([W // 2, W, 3 * W])
+            if sequential:
+                dt = max(dt, rl + wl + 1)
+            t += dt
+            reqs.append([rng.randrange(k), t * G])
+        return {"family": "drl", "window": W, "limit": N, "ninst": k, "rlat": rl, "wlat": wl, "reqs": reqs,
+                "end": (t + rng.choice([0, rl, rl + wl, 10 * W])) * G, "policy": {"kind": "drl"}}
+
     # ------------------------------------------------------------------ implementation
     def run_impl(self, case):
         if case["family"] == "entity":
             return self.impl_entity(case)
+        if case["family"] == "drl":
+            return self.impl_drl(case)
         return self.impl_policy(case)
+
+    def impl_drl(self, case):
+        from happysimulator.components.datastore import KVStore
+        from happysimulator.components.rate_limiter.distributed import DistributedRateLimiter
+        from happysimulator.core.entity import Entity
+        from happysimulator.core.event import Event
+        from happysimulator.core.simulation import Simulation
+        from happysimulator.core.temporal import Instant
+
+        log, emitted = [], []
+
+        class Sink(Entity):
+            def handle_event(self, event):
+                return []
+
+        sink = Sink("sink")
+        store = KVStore(name="store", read_latency=case["rlat"] * G / NS, write_latency=case["wlat"] * G / NS)
+        lims = [DistributedRateLimiter(f"lim{i}", sink, store, global_limit=case["limit"],
+                                       window_size=case["window"] * G / NS) for i in range(case["ninst"])]
+        budget = {"n": 0}
+
+        def letter(a, b):
+            if b.local_rejections > a.local_rejections:
+                return "L"
+            if b.global_rejections > a.global_rejections:
+                return "G"
+            if b.requests_forwarded > a.requests_forwarded:
+                return "F"
+            if b.store_writes > a.store_writes:
+                return "W"
+            if b.store_reads > a.store_reads:
+                return "R"
+            return "?"
+
+        def tap(i, lim):
+            orig = lim.handle_event
+
+            def wrapped(event):
+                rid = event.context.get("rid")
+                gen = orig(event)
+                before = lim.stats
+                sent, first = None, True
+                while True:
+                    budget["n"] += 1
+                    if budget["n"] > 5000:
+                        raise RuntimeError("segment watchdog")
+                    before = lim.stats          # other requests of this instance ran in between
+                    try:
+                        out = next(gen) if first else gen.send(sent)
+                    except StopIteration as stop:
+                        after = lim.stats
+                        kind = "arr" if first else "res"
+                        log.append(f"{kind} {i} {rid} {lim.now.nanoseconds} {letter(before, after)}")
+                        for e in stop.value or []:
+                            emitted.append(f"fwd {i} {e.context.get('rid')} {e.time.nanoseconds}")
+                        return stop.value
+                    after = lim.stats
+                    kind = "arr" if first else "res"
+                    log.append(f"{kind} {i} {rid} {lim.now.nanoseconds} {letter(before, after)}")
+                    first = False
+                    sent = yield out
+
+            lim.handle_event = wrapped
+
+        for i, lim in enumerate(lims):
+            tap(i, lim)
+        sim = Simulation(entities=[*lims, sink, store], end_time=Instant(case["end"] + 1))
+        for rid, (i, t) in enumerate(case["reqs"]):
+            sim.schedule(Event(time=Instant(t), event_type="req", target=lims[i], context={"rid": rid}))
+        sim.run()
+        tail = []
+        for i, lim in enumerate(lims):
+            st = lim.stats
+            tail.append(f"inst {i} {st.requests_received} {st.requests_forwarded} {st.requests_dropped} "
+                        f"{st.local_rejections} {st.global_rejections} {st.store_reads} {st.store_writes} {lim.local_count}")
+        wins = sorted(int(key.rsplit(":", 1)[1]) for key in store.keys())
+        tail += [f"store {w} {store.get_sync(f'ratelimit:window:{w}')}" for w in wins]
+        return log + emitted + tail
 
     def impl_policy(self, case):
         from happysimulator.core.temporal import Instant
@@ -433,6 +694,7 @@ class C10(core.Property):
         return out
 
     def impl_entity(self, case):
+        from happysimulator.components.rate_limiter.inductor import Inductor
         from happysimulator.components.rate_limiter.null import NullRateLimiter
         from happysimulator.components.rate_limiter.rate_limited_entity import RateLimitedEntity
         from happysimulator.core.entity import Entity
@@ -451,6 +713,8 @@ class C10(core.Property):
         sink = Sink("sink")
         if spec["kind"] == "null":
             lim = NullRateLimiter("lim", sink)
+        elif spec["kind"] == "ind":
+            lim = Inductor("lim", sink, time_constant=spec["tau"], queue_capacity=case["qcap"])
         else:
             lim = RateLimitedEntity("lim", sink, make_policy(spec), queue_capacity=case["qcap"])
         is_null = spec["kind"] == "null"
@@ -465,8 +729,11 @@ class C10(core.Property):
 
         def tapped(event):
             counts["n"] += 1
-            if counts["n"] > 20000:
-                raise RuntimeError("delivery watchdog")
+            if counts["n"] > 5000:
+                # a drain that does not advance (polls re-armed at the same instant for ever): stop feeding it
+                if counts["n"] == 5001:
+                    log.append("watchdog")
+                return []
             q0, d0 = stats()
             res = orig(event)
             q1, d1 = stats()
@@ -479,7 +746,7 @@ class C10(core.Property):
                     counts["fwd"] += 1
                     emitted.append((fid, e.time.nanoseconds))
             t = event.time.nanoseconds
-            if event.target is lim and event.event_type.startswith("rate_limit_poll::"):
+            if event.target is lim and event.event_type.startswith(("rate_limit_poll::", "inductor_poll::")):
                 log.append(f"poll {t} {fid} {poll}")
             else:
                 counts["recv"] += 1
@@ -508,7 +775,7 @@ class C10(core.Property):
             tail = f"end {lim.queue_depth} {s.received} {s.forwarded} {s.dropped}"
         # forwarded = what the limiter emitted towards its downstream, in emission order (the engine may stop at
         # end_time before the sink sees the last ones; delivery is C01's business)
-        return log + [f"fwd {i} {t}" for i, t in emitted] + [tail]
+        return log + [f"fwd {i} {t}" for i, t in emitted] + [tail] + (["orc-left 0 0"] if spec["kind"] == "ind" else [])
 
     def _impl_cached(self, case):
         key = json.dumps(case, sort_keys=True)
@@ -521,10 +788,16 @@ class C10(core.Property):
     # ------------------------------------------------------------------ model / judge
     def model_block(self, case, variant):
         spec = case["policy"]
+        if case["family"] == "drl":
+            # the order in which the engine ran the generators' segments comes from the real run (GUIDE rule 8)
+            segs = [" ".join(l.split()[:4]) for l in self._impl_cached(case) if l.startswith(("arr ", "res "))]
+            return (f"drl {case['window'] * G} {case['limit']} {case['ninst']}", segs)
         cfg = " ".join(map(str, cfg_tokens(spec)))
         if case["family"] == "entity":
             # the delivery schedule comes from the real engine (GUIDE rule 8)
             sched = []
+            if spec["kind"] == "ind":
+                cfg += " " + " ".join(inductor_oracle(self._impl_cached(case)))
             for line in self._impl_cached(case):
                 t = line.split()
                 if t[0] == "req":
@@ -552,8 +825,12 @@ class C10(core.Property):
     def judge_block(self, case, impl_out):
         if not impl_out or impl_out[0].startswith("IMPL-"):
             return None
+        if case["family"] == "drl":
+            return (f"judge-drl {case['window'] * G} {case['limit']} {case['ninst']}", list(impl_out))
         cfg = " ".join(map(str, cfg_tokens(case["policy"])))
         if case["family"] == "entity":
+            if case["policy"]["kind"] == "ind":
+                cfg += " d"     # the judge reads the transcript only; no oracle
             return (f"judge-entity {case['qcap']} {cfg}", list(impl_out))
         return (f"judge-policy {case['mode']} {cfg}", list(impl_out))
 
@@ -563,6 +840,9 @@ class C10(core.Property):
         return []
 
     def nontrivial_key(self, case, impl_out):
+        if case["family"] == "drl":
+            outs = {l.split()[4] for l in impl_out if l.startswith(("arr ", "res "))}
+            return json.dumps(case, sort_keys=True) if "F" in outs and outs & {"L", "G"} else None
         if case["family"] == "entity":
             if any(l.startswith("req ") and (l.split()[4] == "1" or l.split()[5] == "1") for l in impl_out):
                 return json.dumps(case, sort_keys=True)
@@ -572,7 +852,7 @@ class C10(core.Property):
         return json.dumps(case, sort_keys=True) if yes and no else None
 
     def shrink(self, case):
-        key = "reqs" if case["family"] == "entity" else "ops"
+        key = "reqs" if case["family"] in ("entity", "drl") else "ops"
         xs = case[key]
         n = len(xs)
         step = max(1, n // 2)
@@ -589,6 +869,24 @@ class C10(core.Property):
     def mutate(self, case, rng):
         c = json.loads(json.dumps(case))
         unit = 1 if case["family"] == "policy-tol" else G
+        if case["family"] == "drl":
+            xs = c["reqs"]
+            if xs:
+                i = rng.randrange(len(xs))
+                k = rng.random()
+                if k < 0.3:
+                    xs.insert(i, list(xs[i]))
+                elif k < 0.5 and len(xs) > 1:
+                    del xs[i]
+                elif k < 0.7:
+                    xs[i][0] = rng.randrange(c["ninst"])
+                else:
+                    d = rng.choice([-2, -1, 1, 2]) * G
+                    for j in range(i, len(xs)):
+                        xs[j][1] = max(0, xs[j][1] + d)
+                c["reqs"] = sorted(xs, key=lambda r: r[1])
+                c["end"] = max([c["end"]] + [r[1] for r in xs])
+            return c
         if case["family"] == "entity":
             xs = c["reqs"]
             if not xs:
@@ -648,10 +946,19 @@ THEOREMS = [
     "HappyModel.C10.adaptive_current_rate_bound",
     "HappyModel.C10.adaptive_credit_le_pmax",
     "HappyModel.C10.adaptive_naive_integral_bound_false",
+    "HappyModel.C10.adaptive_epoch_bound",
+    "HappyModel.C10.adaptive_bucket_within_rate",
+    "HappyModel.C10.adaptive_burst_after_decrease",
     "HappyModel.C10.tua_reaches_admission",
     "HappyModel.C10.entity_exactly_once",
     "HappyModel.C10.entity_exactly_once_spec",
     "HappyModel.C10.entity_fifo",
+    "HappyModel.C10.entity_drain_never_stalls",
+    "HappyModel.C10.refusal_waits_policies",
+    "HappyModel.C10.inductor_exactly_once_fifo_drains",
+    "HappyModel.C10.drl_exactly_once",
+    "HappyModel.C10.drl_exactly_once_spec",
+    "HappyModel.C10.drl_sequential_window_bound",
 ]
 C10.theorems = THEOREMS
 PROPERTY = C10()
